@@ -66,10 +66,10 @@ theorem within_allowance (sv : Server) (user : String) (now : Int) (p : Policy) 
     obtain ⟨_, p', m', hp', _, hm', q, hq, hex⟩ := (refused_iff sv user now).mp h
     rw [hp] at hp'; rw [hm] at hm'
     cases hp'; cases hm'
-    have h1 := range_le_total m.up (afterIdx m.up (now - q.days * nsPerDay)) (afterIdx m.up now - afterIdx m.up (now - q.days * nsPerDay)) hup
-    have h2 := range_le_total m.down (afterIdx m.down (now - q.days * nsPerDay)) (afterIdx m.down now - afterIdx m.down (now - q.days * nsPerDay)) hdown
-    have h3 := range_nonneg m.up (afterIdx m.up (now - q.days * nsPerDay)) (afterIdx m.up now - afterIdx m.up (now - q.days * nsPerDay)) hup
-    have h4 := range_nonneg m.down (afterIdx m.down (now - q.days * nsPerDay)) (afterIdx m.down now - afterIdx m.down (now - q.days * nsPerDay)) hdown
+    have h1 := range_le_total m.up (afterIdx m.up (now - clampDays q.days * nsPerDay)) (afterIdx m.up now - afterIdx m.up (now - clampDays q.days * nsPerDay)) hup
+    have h2 := range_le_total m.down (afterIdx m.down (now - clampDays q.days * nsPerDay)) (afterIdx m.down now - afterIdx m.down (now - clampDays q.days * nsPerDay)) hdown
+    have h3 := range_nonneg m.up (afterIdx m.up (now - clampDays q.days * nsPerDay)) (afterIdx m.up now - afterIdx m.up (now - clampDays q.days * nsPerDay)) hup
+    have h4 := range_nonneg m.down (afterIdx m.down (now - clampDays q.days * nsPerDay)) (afterIdx m.down now - afterIdx m.down (now - clampDays q.days * nsPerDay)) hdown
     have htot : totalBytes q m now ≤ sumD m.up + sumD m.down := by unfold totalBytes window; omega
     have hnn : 0 ≤ totalBytes q m now := by unfold totalBytes window; omega
     have := tdiv_mono _ _ hnn htot
